@@ -44,6 +44,7 @@ type execObs struct {
 	Ms      int      `json:"ms"`
 	Msg     string   `json:"msg,omitempty"`
 	HookHit int      `json:"hook,omitempty"`
+	Retried int      `json:"retried_after_ms,omitempty"` // wall clock of a first attempt that exceeded the bound
 }
 
 func execRLE(b []byte) [][2]int {
@@ -251,9 +252,26 @@ func execPrep(workDir string, n int, in execIn) execPrepared {
 	return execPrepared{path, beh, ck, cleanup, hook}
 }
 
+// execRun: one real call. When the wall clock exceeds the property's bound the call is repeated once on the same
+// script and the second observation is the one reported (a hang reproduces, scheduling noise on a loaded machine
+// does not); kinds that consume their file (vanish, statloop, statgone) return at once and are never repeated.
 func execRun(pr execPrepared, in execIn) (execObs, string) {
-	path, beh, ck, cleanup, hook := pr.path, pr.beh, pr.ck, pr.cleanup, pr.hook
-	defer cleanup()
+	defer pr.cleanup()
+	obs, coq := execRunOnce(pr, in)
+	limit := 2000 + 600
+	if in.Api == 0 {
+		limit = in.T + 600
+	}
+	if obs.Ms > limit && pr.hook == nil {
+		first := obs.Ms
+		obs, coq = execRunOnce(pr, in)
+		obs.Retried = first
+	}
+	return obs, coq
+}
+
+func execRunOnce(pr execPrepared, in execIn) (execObs, string) {
+	path, beh, ck, hook := pr.path, pr.beh, pr.ck, pr.hook
 	var obs execObs
 	var text string
 	var fval float64
@@ -382,6 +400,11 @@ func init() {
 					}
 					// both the script and its descendant outlive the deadline
 					add(execIn{Api: 0, T: pickT(), Kind: "grandchild", Code: 0, Sleep: long, Hold: long + 500, HoldFd: fd, Out: pickOut()}, "grandchild", "past-deadline", "fd="+fd)
+				}
+				// exits 0 shortly before the deadline, descendants let go shortly after it and within the wait delay:
+				// Output() returns nil AFTER the deadline (must be an error, not an empty success)
+				for _, w := range [][3]int{{300, 200, 350}, {400, 290, 450}, {500, 380, 560}} {
+					add(execIn{Api: 0, T: w[0], Kind: "grandchild", Code: 0, Sleep: w[1], Hold: w[2], HoldFd: "both", Out: execTxt("42\n")}, "grandchild", "late-nil")
 				}
 				// a descendant that lets go in time is harmless
 				add(execIn{Api: 0, T: 500, Kind: "grandchild", Code: 0, Hold: 60, HoldFd: "both", Out: execTxt("42\n")}, "grandchild", "short-hold")
